@@ -70,7 +70,10 @@ Engine::PluginRet MemoryReclaim::run(OomdContext& ctx) {
       std::chrono::duration_cast<std::chrono::seconds>(now - last_reclaim_at_)
           .count();
 
-  if (diff <= duration_) {
+  // last_reclaim_at_ is still the epoch until pgscan has been seen to grow;
+  // without this check the time since boot would be taken for the age of a
+  // reclaim that never happened
+  if (last_reclaim_at_ != steady_clock::time_point() && diff <= duration_) {
     return Engine::PluginRet::CONTINUE;
   } else {
     return Engine::PluginRet::STOP;
